@@ -91,6 +91,16 @@ def classify(kind, style, claim_mode, u, entries_has_ids, nums, ids):
 
 
 def run_shard(spec, acc):
+    import os
+    import shutil
+    from .. import runner
+    try:
+        return _run_shard(spec, acc)
+    finally:
+        shutil.rmtree(os.path.join(runner.SCRATCH, f"c10-dump-{os.getpid()}"), ignore_errors=True)
+
+
+def _run_shard(spec, acc):
     dbx = refdb.db()
     rng = gen.rng_for(spec["seed"], ID, spec["name"])
     quick = spec["tier"] == "quick"
@@ -114,6 +124,14 @@ def run_shard(spec, acc):
         jump = False
         events = None
         extra = co_settings(dbx, rng)
+        if c % 4 == 1:
+            # both decoders also dump - everything, or a list that OVERLAPS the PGN filter (the same numbers / ids named in both)
+            import os as _os
+            from .. import runner as _runner
+            entries_ = list(kwargs.get("exclude_pgns") or kwargs.get("include_pgns") or [])
+            extra["dump_to_file"] = _os.path.join(_runner.SCRATCH, f"c10-dump-{_os.getpid()}", f"d{c % 7}.jsonl")
+            extra["dump_pgns"] = [] if c % 8 == 1 else rng.sample(entries_, min(len(entries_), rng.randint(1, 3))) + [rng.choice(pool.singles).pgn]
+            acc.count("configurations_that_also_dump")
         kwargs.update(extra)
         if extra.get("build_network_map") and rng.random() < 0.6:
             # one source never claims, and half-way through the history the decoder's clock is past the 10-minute
